@@ -147,3 +147,79 @@ def serde_fields_restored(ctx, fx, struct_rx, rule="R-FLOW.serde", path_rx=r"blo
                               % (adt.rsplit("::", 1)[-1], missing), fn.file, st[3])
     ctx.instance(rule + ".visitors", n)
     return n
+
+
+# ------------------------------------------------------------------ R-FLOW.builder
+def _fields_touched(fn, pref, write_only=False):
+    """fields of the struct (prefix `.path::`) that fn reads through its receiver (or only those it grows, write_only)"""
+    out = set()
+    for loc, st in fn.iter_locs():
+        places = []
+        if st[0] == "a":
+            if write_only:
+                continue
+            places = [op_place(o) for o in rv_operands(st[2])]
+        elif st[0] == "call":
+            c = st[1]
+            if write_only and c["f"].rsplit("::", 1)[-1] not in ("push", "extend", "extend_from_slice", "push_back", "insert", "append", "push_str"):
+                continue
+            places = [op_place(o) for o in c["a"]]
+            if write_only and c["a"]:
+                # receiver `&mut self.F` built in an earlier statement
+                l0 = op_local(c["a"][0])
+                if l0 is not None:
+                    for d in fn.defs(l0):
+                        if d[1] == "assign" and d[2][2][0] in ("ref", "refmut"):
+                            places.append(d[2][2][1])
+        for p in places:
+            if p and p[0] == 1:
+                for e in p[1:]:
+                    if isinstance(e, str) and e.startswith(pref):
+                        out.add(e[len(pref):])
+    return out
+
+
+def builder_consumes(ctx, fx, file, struct_path, rule="R-FLOW.builder",
+                     adders_rx=r"::(add\w*|push\w*|insert\w*|put\w*|append\w*)$", finish_rx=r"::(finish|build)$"):
+    """what a bulk builder collects must be looked at when it is finished: every collection field that an add/push
+    method of the builder grows is read by `finish` itself or by a method of the builder that `finish` hands `self` to
+    (two levels). A finish that builds its result without ever reading the collected records returns an empty store."""
+    pref = "." + struct_path + "::"
+    ids = [f for f in fx.fn_ids(file) if "::tests::" not in f and "{closure" not in f
+           and (fx.raw(f)["self_ty"] or "").split("<")[0] == struct_path]
+    grown = {}
+    for f in ids:
+        if re.search(adders_rx, f):
+            for fld in _fields_touched(Fn(fx.raw(f)), pref, write_only=True):
+                grown.setdefault(fld, f)
+    fin = [f for f in ids if re.search(finish_rx, f)]
+    n = 0
+    for f in fin:
+        read = set()
+        seen = set()
+
+        def walk(fid, depth):
+            if fid in seen or depth > 2:
+                return
+            seen.add(fid)
+            fn = Fn(fx.raw(fid))
+            read.update(_fields_touched(fn, pref))
+            for b, c in fn.calls():
+                if c["f"] in ids and any(op_place(a) and op_place(a)[0] == 1 or
+                                         (op_local(a) is not None and 1 in fn.backslice([op_local(a)], max_nodes=12)[0]) for a in c["a"]):
+                    walk(c["f"], depth + 1)
+        walk(f, 0)
+        for fld in sorted(grown):
+            n += 1
+            ok = fld in read
+            ctx.analysed_fns.add(f)
+            ctx.obligation(rule, f, "collected field %s is read when the builder is finished" % fld, ok,
+                           sample={"finish": f, "field": fld, "grown_by": grown[fld], "fields_read": sorted(read)[:8]})
+            if not ok:
+                ctx.violation(rule, f, "collected field %s never read" % fld,
+                              "%s grows self.%s, but %s builds its result without reading that field (fields read: %s): the records "
+                              "handed to the builder are not in what it returns"
+                              % (grown[fld].rsplit("::", 1)[-1], fld, f.rsplit("::", 1)[-1], ", ".join(sorted(read)) or "none"),
+                              fx.raw(f)["file"], fx.raw(f)["line"])
+    ctx.instance(rule + ".fields", n)
+    return n
